@@ -14,17 +14,21 @@
 // (syntax.Parse(pat, OneLine|ClassNL|PerlX|...)) accepts exactly the patterns
 // that Compile accepts, and reports the number of disagreements on stderr.
 //
-// Usage:  go run gen.go [-seed N] [-n 6000] [-o cases.ndjson]
+// Usage:  go run gen.go [-seed N] [-n 6000] [-nt 1000] [-wide] [-o cases.ndjson]
+//
+//	go run gen.go -sum tlc-output.txt     (sums the BLOCK lines Test_Regex prints)
 package main
 
 import (
 	"bufio"
+	"encoding/json"
 	"flag"
 	"fmt"
 	"math/rand"
 	"os"
 	"regexp"
 	"regexp/syntax"
+	"sort"
 	"strings"
 )
 
@@ -51,6 +55,24 @@ var weighted = []struct {
 var alphabet = []byte{'a', 'b', 'A', '.', '*', '+', '?', '|', '(', ')', '[', ']', '^', '$', '\\', '-', 'd', 'w', '{', '}', '1', ',', '\n'}
 
 var subjects = []string{"", "a", "b", "ab", "ba", "aab", "A", "a\nb", "\n", "a1", "-", "ab\n", "b\na", "aaa", "1", " "}
+
+// -wide: the alphabet of the random byte patterns, with more escape letters,
+// digits and punctuation
+var wideAlphabet = []byte("abAzZ_ .*+?|()[]^$\\-dDwWsSbBntAz{}0123,:\n\t")
+
+// the subjects of the token patterns (and of everything under -wide)
+var wideSubjects = append([]string{"a b", "_", "a_b", "AB", "aa\n", "\t", "z", "Z", "ab ab", "abab", "aaaa", "12", "a-b", "\n\n", "b1 ", "bab", "\na", "[", "a.b", "a{2}"}, subjects...)
+
+var subjAlphabet = []byte("aabbA1-_ \n")
+
+// tokens of the structured random patterns: 2..7 of them are concatenated
+var tokens = []string{
+	"a", "a", "b", "b", "A", "1", "-", " ", "_", ".", ".", `\.`, `\d`, `\D`, `\w`, `\W`, `\s`, `\S`, `\n`, `\t`, "\n",
+	`\b`, `\B`, `\A`, `\z`, "^", "^", "$", "$", "(", "(", "(?:", ")", ")", ")", "|", "|",
+	"*", "*", "+", "+", "?", "?", "*?", "+?", "??", "{2}", "{0,1}", "{1,2}", "{2,}", "{1,3}?", "{0}", "{3,4}", "{4}",
+	"[ab]", "[a-c]", "[^a]", "[^a-z]", "[^\\n]", `[\d-]`, `[\w ]`, "[A-b]", "[^b\\s]", "[]a]", "[a-]", `[\W1]`, "[^\\D]",
+	`\-`, `\|`, `\(`, `\)`, `\[`, `\]`, `\{`, `\}`, `\^`, `\$`, `\*`, `\+`, `\?`, `\\`, "{", "}", "]", ",",
+}
 
 // goPattern is the translation of ast.RegexNode.Regexp.
 func goPattern(pat string, f flagSet) string {
@@ -104,6 +126,8 @@ var (
 	cache    = map[string]*regexp.Regexp{}
 	bad      = map[string]bool{}
 	counts   = map[string]int{}
+
+	disagreed = map[string]bool{}
 )
 
 func bytesJSON(s string) string {
@@ -142,7 +166,10 @@ func emit(pat, subj string, f flagSet) {
 	}
 	if validates(pat, f) != (want != "invalid") {
 		disagree++
-		fmt.Fprintf(os.Stderr, "validate/compile disagree: %q flags %+v\n", pat, f)
+		if !disagreed[pat] {
+			disagreed[pat] = true
+			fmt.Fprintf(os.Stderr, "parse-time validation and Compile disagree on %q\n", pat)
+		}
 	}
 	nextID++
 	counts[want]++
@@ -162,11 +189,11 @@ func pickFlags(r *rand.Rand) flagSet {
 }
 
 // six distinct subjects
-func pickSubjects(r *rand.Rand) []string {
-	p := r.Perm(len(subjects))[:6]
+func pickSubjects(r *rand.Rand, from []string) []string {
+	p := r.Perm(len(from))[:6]
 	res := make([]string, 0, 6)
 	for _, k := range p {
-		res = append(res, subjects[k])
+		res = append(res, from[k])
 	}
 	return res
 }
@@ -174,7 +201,7 @@ func pickSubjects(r *rand.Rand) []string {
 func enumerate(r *rand.Rand, prefix []byte, n int) {
 	if n == 0 {
 		pat := string(prefix)
-		for _, s := range pickSubjects(r) {
+		for _, s := range pickSubjects(r, subjects) {
 			emit(pat, s, pickFlags(r))
 		}
 		return
@@ -411,14 +438,30 @@ var hands = []hand{
 	{`abc`, []string{"abc", "xabcx", "ab", "ABC", "aBc", "a\nbc"}, []flagSet{fNone, fI, fS, fM, fQ, fIQ}},
 	{`a b`, []string{"a b", "ab", "A B"}, []flagSet{fNone, fI, fQ}},
 	{`a#b`, []string{"a#b", "ab"}, []flagSet{fNone, fI, fQ}},
+	{strings.Repeat("a?", 24), []string{"aaa", "b"}, std},
+	{strings.Repeat("a?", 24) + "b", []string{"aaa", "b"}, std},
+	{strings.Repeat("a", 60), []string{"aaa", strings.Repeat("a", 60), strings.Repeat("A", 61)}, []flagSet{fNone, fI, fQ}},
+	{`^(a|b)*$`, []string{strings.Repeat("ab", 64), strings.Repeat("ab", 64) + "c", strings.Repeat("ab", 64) + "a"}, std},
+	{`(((a{4}){4}){4}){4}`, []string{strings.Repeat("a", 128)}, std},
+	{`((((a{4}){4}){4}){4}){3}`, []string{"a"}, std},
+	{`((((a{4}){4}){4}){4}){4}`, []string{"a"}, std},
+	{`((((a{2}){2}){2}){2}){2}`, []string{"a", strings.Repeat("a", 32), strings.Repeat("a", 31)}, std},
+	{`^(((a{2}){2}){2}){2}$`, []string{"a", strings.Repeat("a", 16), strings.Repeat("a", 17)}, std},
 }
 
 func main() {
 	seed := flag.Int64("seed", 1, "random seed")
 	n := flag.Int("n", 6000, "number of random patterns of length 4..7")
 	maxEnum := flag.Int("enum", 3, "enumerate all patterns up to this length")
+	nt := flag.Int("nt", 1000, "number of random patterns made of 2..7 tokens")
+	wide := flag.Bool("wide", false, "random byte patterns over a wider alphabet and subject set")
 	path := flag.String("o", "cases.ndjson", "output file")
+	sum := flag.String("sum", "", "summarise this TLC output instead of generating")
 	flag.Parse()
+	if *sum != "" {
+		summarise(*sum)
+		return
+	}
 
 	f, err := os.Create(*path)
 	if err != nil {
@@ -452,23 +495,80 @@ func main() {
 	nEnum := nextID - nHand
 
 	// (a) random part
+	alpha, subj := alphabet, subjects
+	if *wide {
+		alpha, subj = wideAlphabet, wideSubjects
+	}
 	seenPat := map[string]bool{}
 	for k := 0; k < *n; {
 		l := 4 + r.Intn(4)
 		b := make([]byte, l)
 		for j := range b {
-			b[j] = alphabet[r.Intn(len(alphabet))]
+			b[j] = alpha[r.Intn(len(alpha))]
 		}
 		if seenPat[string(b)] {
 			continue
 		}
 		seenPat[string(b)] = true
 		k++
-		for _, s := range pickSubjects(r) {
+		for _, s := range pickSubjects(r, subj) {
 			emit(string(b), s, pickFlags(r))
 		}
 	}
 	nRand := nextID - nHand - nEnum
+
+	// (c) random token patterns
+	for k := 0; k < *nt; {
+		var b strings.Builder
+		depth := 0
+		balance := r.Intn(10) > 0 // mostly balanced parentheses
+		for j := 2 + r.Intn(6); j > 0; j-- {
+			t := tokens[r.Intn(len(tokens))]
+			if balance && t == ")" {
+				if depth == 0 {
+					continue
+				}
+				depth--
+			}
+			if t[0] == '(' {
+				depth++
+			}
+			b.WriteString(t)
+		}
+		for ; balance && depth > 0; depth-- {
+			b.WriteString(")")
+		}
+		if seenPat[b.String()] {
+			continue
+		}
+		seenPat[b.String()] = true
+		k++
+		fl := pickFlags(r)
+		ss := pickSubjects(r, wideSubjects)
+		// replace up to three of the subjects by random strings the pattern
+		// matches under fl, so that enough cases want "T"
+		if re, err := regexp.Compile(goPattern(b.String(), fl)); err == nil {
+			found := 0
+			for try := 0; try < 300 && found < 3; try++ {
+				x := make([]byte, r.Intn(7))
+				for j := range x {
+					x[j] = subjAlphabet[r.Intn(len(subjAlphabet))]
+				}
+				if re.MatchString(string(x)) && len(x) > 0 {
+					ss[found] = string(x)
+					found++
+				}
+			}
+		}
+		for j, s := range ss {
+			if j < 3 {
+				emit(b.String(), s, fl)
+			} else {
+				emit(b.String(), s, pickFlags(r))
+			}
+		}
+	}
+	nTok := nextID - nHand - nEnum - nRand
 
 	if err := out.Flush(); err != nil {
 		panic(err)
@@ -476,6 +576,69 @@ func main() {
 	if err := f.Close(); err != nil {
 		panic(err)
 	}
-	fmt.Fprintf(os.Stderr, "cases: %d (hand %d, enumerated %d, random %d); want T %d, F %d, invalid %d; validate/compile disagreements: %d\n",
-		nextID, nHand, nEnum, nRand, counts["T"], counts["F"], counts["invalid"], disagree)
+	fmt.Fprintf(os.Stderr, "cases: %d (hand %d, enumerated %d, random %d, token %d); want T %d, F %d, invalid %d; validate/compile disagreements: %d\n",
+		nextID, nHand, nEnum, nRand, nTok, counts["T"], counts["F"], counts["invalid"], disagree)
+}
+
+// summarise adds up the <<"BLOCK", "{json}">> lines of a Test_Regex run and
+// lists the mismatch lines.  Exit status 1 if anything is wrong.
+func summarise(path string) {
+	f, err := os.Open(path)
+	if err != nil {
+		panic(err)
+	}
+	defer f.Close()
+	tot := map[string]int{}
+	blocks, mism := 0, 0
+	okLine := false
+	sc := bufio.NewScanner(f)
+	sc.Buffer(make([]byte, 1<<20), 1<<20)
+	for sc.Scan() {
+		l := strings.TrimSpace(sc.Text())
+		switch {
+		case strings.Contains(l, "MISMATCH"):
+			mism++
+			fmt.Println(l)
+		case strings.HasPrefix(l, `<<"BLOCK", `):
+			var js string
+			var m map[string]int
+			if err := json.Unmarshal([]byte(strings.TrimSuffix(strings.TrimPrefix(l, `<<"BLOCK", `), ">>")), &js); err != nil {
+				panic(err)
+			}
+			if err := json.Unmarshal([]byte(js), &m); err != nil {
+				panic(err)
+			}
+			blocks++
+			for k, v := range m {
+				if k != "blk" {
+					tot[k] += v
+				}
+			}
+		case strings.Contains(l, "Model checking completed. No error has been found."):
+			okLine = true
+		}
+	}
+	all, valid, invalid := 0, 0, 0
+	keys := make([]string, 0, len(tot))
+	for k, v := range tot {
+		keys = append(keys, k)
+		all += v
+		if strings.HasPrefix(k, "inv:") {
+			invalid += v
+		} else if k != "bad" {
+			valid += v
+		}
+	}
+	sort.Strings(keys)
+	fmt.Printf("blocks %d, cases %d, mismatch lines %d, bad %d, TLC finished without error: %t\n", blocks, all, mism, tot["bad"], okLine)
+	fmt.Printf("patterns Go compiles: %d cases, decided %d (%.2f%%), opaque %d\n", valid, tot["decided"],
+		100*float64(tot["decided"])/float64(max(valid, 1)), valid-tot["decided"])
+	fmt.Printf("patterns Go rejects:  %d cases, all answered opaque; recognised as invalid by RxPatternClass %d (%.2f%%)\n", invalid, tot["inv:invalid"],
+		100*float64(tot["inv:invalid"])/float64(max(invalid, 1)))
+	for _, k := range keys {
+		fmt.Printf("  %-14s %d\n", k, tot[k])
+	}
+	if mism > 0 || tot["bad"] > 0 || !okLine || blocks == 0 {
+		os.Exit(1)
+	}
 }
